@@ -8,7 +8,8 @@ from .. import refash as R
 ID = "C04"
 LEVEL = "exploration"
 ENGINE = "E2 ashpeer"
-TECHNIQUE = "deterministic simulation: enumerated and seeded frame sequences from a scripted peer, random read chunking, checked read by read against a reference receive state machine"
+TECHNIQUE = ("deterministic simulation: enumerated and seeded frame sequences from a scripted peer, random read chunking, checked read by read against a reference receive state machine"
+             ' The live-link engine E1 (host frames in flight, windowed reference NCP, line faults, reads spanning frame boundaries) is a further seeded scenario of this check, with the reference receiver fed the same bytes.')
 LEVEL_TEXT = ("complete sweep of all sequences up to a length bound over a 12-symbol relative frame alphabet from each of the 8 expected-number "
               "states, plus long seeded sequences crossing the modulo-8 wrap; exploration beyond the swept length")
 COMPONENTS = e2.COMPONENTS
